@@ -4,7 +4,11 @@ use futures::channel::oneshot;
 use std::sync::{Arc, Weak};
 use std::{future::Future, pin::Pin};
 
-use crate::{Actor, Handler, channel::ChanTx, context::ContextID};
+use crate::{
+    Actor, Handler,
+    channel::{ChanTx, ForceChanTx},
+    context::ContextID,
+};
 
 use super::{Addr, Message, Payload, Result, weak_caller::WeakCaller};
 
@@ -29,16 +33,20 @@ impl<M: Message> Caller<M> {
         self.downgrade_fn.downgrade()
     }
 
-    pub(crate) fn new<A>(tx: ChanTx<A>, id: ContextID) -> Self
+    pub(crate) fn new<A>(tx: ChanTx<A>, force_tx: ForceChanTx<A>, id: ContextID) -> Self
     where
         A: Actor + Handler<M>,
     {
         let weak_tx: Weak<_> = Arc::downgrade(&tx);
+        let weak_force_tx: Weak<_> = Arc::downgrade(&force_tx);
 
         // TODO: make this queue-safe
         let call_fn = Box::new(
             move |msg| -> Pin<Box<dyn Future<Output = Result<M::Response>>>> {
                 let tx = Arc::clone(&tx);
+                // a caller is a strong handle: like every other kind it keeps both halves of
+                // the channel alive (the context, timers and weak handles need the forcing one)
+                let _force_tx = &force_tx;
                 Box::pin(async move {
                     let (response_tx, response) = oneshot::channel();
 
@@ -56,7 +64,12 @@ impl<M: Message> Caller<M> {
             },
         );
 
-        let upgrade = Box::new(move || weak_tx.upgrade().map(|tx| Caller::new(tx, id)));
+        let upgrade = Box::new(move || {
+            weak_tx
+                .upgrade()
+                .zip(weak_force_tx.upgrade())
+                .map(|(tx, force_tx)| Caller::new(tx, force_tx, id))
+        });
 
         let downgrade_fn = Box::new(move || WeakCaller {
             upgrade: upgrade.clone(),
@@ -91,7 +104,11 @@ where
     A: Actor + Handler<M>,
 {
     fn from(addr: Addr<A>) -> Self {
-        Caller::new(addr.payload_tx.to_owned(), addr.context_id)
+        Caller::new(
+            addr.payload_tx.to_owned(),
+            addr.payload_force_tx.to_owned(),
+            addr.context_id,
+        )
     }
 }
 
